@@ -348,14 +348,16 @@ def warm_up(ops, opcode=False):
 
 # ------------------------------------------------------------------------------- cold start
 COLD_PER_LINE_LIMIT = 3
-def _cold_exec(specs, make_op, prefix, labels, opcode):
-    """In a forked copy of the pristine process: build the operations and run ONE schedule."""
+def _cold_exec(specs, make_op, prefix, labels, opcode, after=None):
+    """In a forked copy of the pristine process: build the operations and run ONE schedule; then
+    (``after``) whatever the caller wants to look at in the state the schedule left behind."""
     ops = [make_op(sp) for sp in specs]
     r = Runner(len(ops), opcode, per_line_limit=COLD_PER_LINE_LIMIT)
     try:
         ch = choice.Chooser(prefix, labels)
         st = r.run(ops, ch)
-        return (ch.trace, ch.free, st.results, st.steps, st.preemptions, st.switch_log)
+        results = st.results if after is None else (list(st.results), after())
+        return (ch.trace, ch.free, results, st.steps, st.preemptions, st.switch_log)
     finally:
         r.close()
 
@@ -375,7 +377,8 @@ def _cold_exec_ops(make_ops, prefix, labels, opcode, per_line_limit=COLD_PER_LIN
         r.close()
 
 
-def explore_forked(make_ops, bound: int, opcode: bool = False, readback: bool = False):
+def explore_forked(make_ops, bound: int, opcode: bool = False, readback: bool = False,
+                   per_line_limit: int | None = None):
     """Every execution in its own fork of the calling process (ops built by ``make_ops`` inside the
     child): used when a library under test carries state from one execution into the next, so that
     replaying a schedule prefix in the same process would not see the same behaviour."""
@@ -384,7 +387,7 @@ def explore_forked(make_ops, bound: int, opcode: bool = False, readback: bool = 
     def run(ch):
         # forks of a WARMED process (read-back mode): no per-line limit on switch offers
         trace, free, results, steps, pre, log = in_child(_cold_exec_ops, make_ops, ch.prefix, ch.labels, opcode,
-                                                         None if readback else COLD_PER_LINE_LIMIT, readback)
+                                                         per_line_limit if readback else COLD_PER_LINE_LIMIT, readback)
         ch.trace, ch.free = list(trace), list(free)
         return results, steps, pre, log
 
@@ -392,14 +395,14 @@ def explore_forked(make_ops, bound: int, opcode: bool = False, readback: bool = 
         yield ch, results, steps, pre, log
 
 
-def explore_cold(specs, make_op, bound: int, opcode: bool = False):
+def explore_cold(specs, make_op, bound: int, opcode: bool = False, after=None):
     """Like ``explore`` but every execution starts in its own fork of the (pristine, post-import)
     calling process, so that first-use code paths - lazy initialisation, caches filled on first
     access - are interleaved too.  Yields (chooser, results, steps, preemptions, switch_log)."""
     from .par import in_child
 
     def run(ch):
-        trace, free, results, steps, pre, log = in_child(_cold_exec, specs, make_op, ch.prefix, ch.labels, opcode)
+        trace, free, results, steps, pre, log = in_child(_cold_exec, specs, make_op, ch.prefix, ch.labels, opcode, after)
         ch.trace, ch.free = list(trace), list(free)
         return results, steps, pre, log
 
